@@ -37,13 +37,23 @@ def history_spec(prop):
 # history-based properties (C01..C13): itv in two build profiles
 
 
+# properties whose runner needs a non-default feature set of indextree (own target dir: no rebuild thrash)
+BUILD_OPTS = {"C16": dict(features="std,deser", sub="deser")}
+
+
 def _itv(ctx, profile_dir):
-    return os.path.join(ctx["TARGET"], profile_dir, "itv")
+    o = BUILD_OPTS.get(ctx["prop"])
+    base = os.path.join(ctx["TARGET"], o["sub"]) if o else ctx["TARGET"]
+    return os.path.join(base, profile_dir, "itv")
 
 
 def build_itv(ctx):
+    o = BUILD_OPTS.get(ctx["prop"])
     for prof in ("vdbg", "vrel"):
-        rc, out, dt = ctx["build"](["itv"], prof)
+        if o:
+            rc, out, dt = ctx["build"](["itv"], prof, features=o["features"], target_dir=os.path.join(ctx["TARGET"], o["sub"]))
+        else:
+            rc, out, dt = ctx["build"](["itv"], prof)
         if rc != 0:
             ctx["fail_infra"](ctx["prop"], f"harness build ({prof}) failed", out)
 
@@ -157,5 +167,8 @@ def merge_coverage(prop, partials, spec):
 
 RULES["C14"] = "Generated documents: forest spec (each node attaches below the previous node, beside it, below a generated earlier node, or starts/extends a top-level chain; built with append_value / append / prepend) x four independent renderings per payload (1-4 lines, empty first/interior lines, guide look-alike text, tabs, multi-byte chars; last line non-empty) x a chunking plan for the payload's write_str calls. EVERY node is used as start node in all four format modes; oracle = independent reference renderer (exact comparison; trailing blanks ignored only on empty payload lines). An evaluation is one (document, start node, mode). Non-trivial: start node with siblings and children, or a multi-line payload at relative depth >= 2 below a last-sibling ancestor; distinct by printed text."
 
+RULES["C16"] = "Histories (removal-heavy, recycling, clear, rare generation-exhausting churn) with Roundtrip ops: the arena is serialised with serde_json and deserialised; the copy must be == the original, serialise to the same text, agree on is_removed for EVERY id ever issued, and then executes the rest of the history in lock-step with the original (same outcomes, Arena == after every call, and the copy is checked against the reference model as well). Non-trivial: the free list is non-empty at the round trip and a later call allocates; distinct by (forest shape, number of free / recycled / retired slots)."
+
 SPECS = {p: history_spec(p) for p in RULES}
+SPECS["C16"]["assumptions"] = ASSUME + ["one self-describing data format (serde_json) carries the derives under test; non-self-describing formats are not exercised"]
 SPECS["C14"]["assumptions"] = ["payload renderings are non-empty and do not end in a newline (the property's precondition), by construction", "documents have <= 20 (quick) / 28 (thorough) nodes, payloads <= 4 lines"]
